@@ -154,7 +154,18 @@ func CosineSimilarity(a, b []float32) float64 {
 		return 0
 	}
 
-	return dot / (math.Sqrt(normA) * math.Sqrt(normB))
+	// Rounding can push the quotient just outside [-1, 1] (cos(a, a) = 1.0000000000000002 for
+	// many a), and vectors holding NaN or Inf have no meaningful similarity.
+	sim := dot / (math.Sqrt(normA) * math.Sqrt(normB))
+	switch {
+	case math.IsNaN(sim):
+		return 0
+	case sim > 1:
+		return 1
+	case sim < -1:
+		return -1
+	}
+	return sim
 }
 
 // SemanticScores computes cosine similarity between query and all commands.
